@@ -242,6 +242,10 @@ def run(ctx, consts, jobs):
         for j in pick:
             for tag, nb in VARIANTS[mj](bytes.fromhex(j["filehex"])):
                 cases.append(dict(j=j, tag=tag, hex=nb.hex(), name="%s+%s" % (j["name"], tag)))
+    from . import bigskip                    # deterministic slice: skips that do not fit the header cache (sizes around 100 KiB, 16 KiB multiples +- 1)
+    big = bigskip.cases(jobs, quick)
+    cases += big
+    stats["bigskip_cases"] = len(big)
     scripts = []
     for n, c in enumerate(cases):
         j = c["j"]
@@ -251,12 +255,15 @@ def run(ctx, consts, jobs):
         # defined frame count on a pipe (the library refuses the first and reports SF_COUNT_MAX-derived frames for the second, by design)
         open_ended = "unknown-size" in c["tag"]
         routes = ["vio", "path", "fd0", "fd1"] + (["fdemb:37:9", "fdemb:4096:100"] if f.major in C.WHITELIST and not open_ended else [])
+        if c.get("bigskip"):
+            routes = c["routes"]
         c["routes"] = routes
         for r in routes:
             scripts.append(("f|%d|%s" % (n, r), C.read_script(f, j["ch"], j["frames"], c["hex"], r)))
+        want_pipes = c.get("pipes") if c.get("bigskip") else ["pipe", "pipe:4096"]
         c["pipes"] = []
         if f.major in C.PIPE_MAJORS and f.granular and not open_ended:
-            c["pipes"] = ["pipe", "pipe:4096"]
+            c["pipes"] = want_pipes
             scripts.append(("f|%d|vioseq" % n, C.read_script(f, j["ch"], j["frames"], c["hex"], "vio", seekable=False)))
             for r in c["pipes"]:
                 scripts.append(("f|%d|%s" % (n, r), C.read_script(f, j["ch"], j["frames"], c["hex"], r, seekable=False)))
